@@ -380,11 +380,47 @@ def rejectionMsg (ps : List MsgPiece) (path err : Str) : Str :=
   | .path :: r => path ++ rejectionMsg r path err
   | .err :: r => err ++ rejectionMsg r path err
 
-/-- the statements of the per-file handler (`except Exception as e:`) of `Project.__init__` -/
+/-- what the handler looks at in the exception before it decides what to say (round 5: the
+    message may depend on the exception text - e.g. a text that already starts with `In file ...`
+    is passed on as it is) -/
+inductive ErrGuard
+  | any                          -- every exception
+  | errPrefix (s : Str)          -- the exception text starts with `s`
+  deriving DecidableEq, Repr
+
+def isPrefix : Str → Str → Bool
+  | [], _ => true
+  | _ :: _, [] => false
+  | a :: as, b :: bs => a == b && isPrefix as bs
+
+def ErrGuard.holds : ErrGuard → Str → Bool
+  | .any, _ => true
+  | .errPrefix s, err => isPrefix s err
+
+/-- the handler's message as a decision list over the exception text: the first rule whose guard
+    holds says which pieces make up the warning (no rule: nothing is said) -/
+def rejectionText (rules : List (ErrGuard × List MsgPiece)) (path err : Str) : Str :=
+  match rules with
+  | [] => []
+  | (g, ps) :: r => if g.holds err then rejectionMsg ps path err else rejectionText r path err
+
+/-- every rule names the file of this iteration, and some rule always applies -/
+def rulesNameFile (rules : List (ErrGuard × List MsgPiece)) : Bool :=
+  rules.all (fun r => r.2.contains MsgPiece.path) && rules.any (fun r => r.1 == ErrGuard.any)
+
+/-- is `p` a contiguous part of `s` -/
+def occursIn (p : Str) : Str → Bool
+  | [] => p.isEmpty
+  | c :: cs => isPrefix p (c :: cs) || occursIn p cs
+
+/-- the behaviour of the per-file handler (`except Exception as e:`) of `Project.__init__`, as
+    observed on every probe (round 5: by running the loop with a constructor that raises) -/
 inductive HStep
-  | reraiseUnlessDbg     -- `if not settings.dbg: raise e`
-  | warn                 -- `warn(f"Error parsing ...")`
-  | continue_
+  | reraiseUnlessDbg     -- with `dbg = false` the exception leaves the loop, nothing is printed
+  | warn                 -- with `dbg` exactly one call of `warn` before the next file is read
+  | continue_            -- ... and the next file is read, nothing escapes
+  | escapes              -- with `dbg` the exception leaves the loop (for some class of exceptions)
+  | silent               -- with `dbg` no call of `warn` before the next file is read
   deriving DecidableEq, Repr
 
 /-! ## the inputs on which rich's `escape` / `render` pair is not the identity -/
